@@ -281,10 +281,34 @@ func (c *Ctx) checkHistC03x(h hist, cases *[]mcase) {
 			}
 		}
 	}
+	// merging clears the non-anchor cells and every later write inside the range goes to the anchor: once a range
+	// that is still merged at the end is unmerged, its non-anchor cells hold neither a value nor a formula
+	// (GetCellValue hides them while the range is merged; GetRows and the saved file do not)
+	for _, r := range rs {
+		a, _ := excelize.CoordinatesToCellName(r[0], r[1])
+		b, _ := excelize.CoordinatesToCellName(r[2], r[3])
+		if err := f.UnmergeCell(h.Sheet, a, b); err != nil {
+			continue
+		}
+		for col := r[0]; col <= r[2]; col++ {
+			for row := r[1]; row <= r[3]; row++ {
+				if col == r[0] && row == r[1] {
+					continue
+				}
+				name, _ := excelize.CoordinatesToCellName(col, row)
+				v, _ := f.GetCellValue(h.Sheet, name, excelize.Options{RawCellValue: true})
+				fm, _ := f.GetCellFormula(h.Sheet, name)
+				if v != "" || fm != "" {
+					c.Fail("oracle", "C03_merge_clears", h, fmt.Sprintf("cell %s lay inside merged range %s:%s; after unmerging it holds value %q formula %q", name, a, b, v, fm), "")
+					return
+				}
+			}
+		}
+	}
 }
 
 func runC03(c *Ctx) {
-	c.R.Rule = "write histories (1..25 ops: every SetCellValue payload kind, formulas, cell/row styles, non-overlapping merges, alternative spellings) on the initial sheet or a sheet created by NewSheet, over a 6x6 window at the origin or at far positions (XFD, row 1000); observation of the whole window (raw value, type, formula, effective style) compared with the extracted model; non-trivial = at least one overwrite of a cell or a merge"
+	c.R.Rule = "merge/unmerge/read histories of overlapping, nested, chained and crossing ranges: ranges reported mid-history, at the end and by the reopened file compared with the extracted model of mergeOverlapCells and checked pairwise disjoint; write histories (1..25 ops: every SetCellValue payload kind, formulas, cell/row styles, non-overlapping merges, alternative spellings) on the initial sheet or a sheet created by NewSheet, over a 6x6 window at the origin or at far positions (XFD, row 1000); observation of the whole window (raw value, type, formula, effective style) compared with the extracted model; non-trivial = at least one overwrite of a cell or a merge"
 	n := 400
 	if c.Thorough() {
 		n = 20000
@@ -300,6 +324,7 @@ func runC03(c *Ctx) {
 	}
 	c.compareBatch(cases)
 	c.c03Overlaps()
+	c.c03Merges(n)
 }
 
 // overlapping / nested merges: oracle only (anchor value, clearing, disjointness)
